@@ -3,7 +3,7 @@
 # string the real formatter produces for it in every format.  txt / md / csv / json of `list` and txt / md / csv of `diff` are
 # compared BYTE FOR BYTE with the Gallina format model (Model/Format.v); every format incl. dot is parsed back to rows and
 # compared with the API result and with every other format.
-from . import c04
+from . import c04, c06
 from .lib import core, gen, listcorr, fmt
 from .lib.core import cstr, cnat, clist, cbool
 
@@ -22,7 +22,7 @@ def c_entries_full(o):
 def main(tier):
     run = core.Run('C09', tier)
     run.cov['rule'] = ('random worlds (IP ranges, multi-protocol port sets, ANP/BANP) and world pairs; the real formatter output of list {txt,md,csv,json,dot} and diff {txt,md,csv,dot}; '
-                       'byte equality with the Gallina format model for list txt/md/csv/json and diff txt/md/csv; every format parsed back to rows and compared with the API result and each other; '
+                       'byte equality with the Gallina format model for list txt/md/csv/json and diff txt/md/csv; every format parsed back to rows and compared with the API result and each other; exposure sections of list --exposure txt/md/csv/json parsed back and compared with ExposedPeers() (entries, IP rows, unprotected lines) and with each other; '
                        'non-trivial = at least 3 entries with an IP range and a multi-protocol connection; distinct by scenario hash')
     run.stage_proofs()
     b = core.build_go(['verifapi'], run.log)
@@ -114,6 +114,48 @@ def main(tier):
                     if ok:
                         rn = lambda s: s
                         dcases.append('(mkDFmt %s %s %s %s %s)' % (cnat(cid), c04.c_diff(dt, rn), cstr(do['txt'].get('out', '')), cstr(do['md'].get('out', '')), cstr(do['csv'].get('out', ''))))
+            # exposure sections: every format must hold exactly the exposure entries of the API result
+            xw = [(k + i, c06.gen_case(run.rng)) for i in range(max(4, len(metas) // 2))]
+            xcmds = []
+            for cid, W in xw:
+                dx = h.dir_for('x%d' % cid)
+                gen.write_dir(dx, [m for m, _ in gen.docs(W)])
+                for f in ('txt', 'md', 'csv', 'json'):
+                    xcmds.append({'id': 'x', 'cmd': 'list', 'dir': dx, 'format': f, 'exposure': True, 'want_out': True})
+            xouts = h.run(xcmds)
+            for j, (cid, W) in enumerate(xw):
+                xo = dict(zip(('txt', 'md', 'csv', 'json'), xouts[4 * j: 4 * j + 4]))
+                run.count(1)
+                if xo['txt']['outcome'] != 'ok':
+                    continue
+                payload = {'kind': 'exposure-format', 'world': W, 'manifests': [m for m, _ in gen.docs(W)]}
+                want_rows, want_unprot = fmt.api_exposure_rows(xo['txt'])
+                if len(want_rows) >= 3:
+                    run.nontrivial(['exposure', W])
+                # distinct API entries must be told apart in the output
+                for x in xo['txt'].get('exposure') or []:
+                    for d in ('ingress', 'egress'):
+                        names = [fmt.render_rep(e['ns_sel'], e['pod_sel']) for e in x[d] if not e['cluster']]
+                        if len(set(names)) != len(names):
+                            run.report(None, 'xnames-%d' % cid, dict(payload, workload=x['peer'], direction=d, entries=x[d]), 'two different exposure entries are printed under the same name')
+                for f, parser in (('txt', lambda o: fmt.parse_exposure_txt(o)[0]), ('md', fmt.parse_exposure_md), ('csv', fmt.parse_exposure_csv), ('json', fmt.parse_exposure_json)):
+                    o = xo[f]
+                    try:
+                        got = parser(o.get('out', ''))
+                    except Exception as ex:
+                        run.report(None, 'xunparsable-%d' % cid, dict(payload, format=f, output=o.get('out'), error=str(ex)), 'the exposure section of the %s output cannot be parsed back' % f)
+                        break
+                    want_f, _ = fmt.api_exposure_rows(o)
+                    if got != want_f:
+                        run.report(None, 'xrows-%s-%d' % (f, cid), dict(payload, format=f, output=o.get('out'), api_rows=want_f, parsed_rows=got, exposure=o.get('exposure')),
+                                   'the exposure section of the %s output does not encode exactly the exposure entries of the analysis result' % f)
+                        break
+                    if got != want_rows:
+                        run.report(None, 'xcross-%s-%d' % (f, cid), dict(payload, format=f), 'exposure sections of two formats disagree')
+                        break
+                else:
+                    if fmt.parse_exposure_txt(xo['txt'].get('out', ''))[1] != want_unprot:
+                        run.report(None, 'xunprot-%d' % cid, dict(payload, output=xo['txt'].get('out'), expected=want_unprot), 'the list of unprotected workloads does not match the analysis result')
             run.cov['traces_validated_against_impl'] += len(metas)
             if k == 0 and metas:
                 run.sample({'list_txt': info[metas[0][0]][1]['txt'].get('out', '')[:600]})
